@@ -216,6 +216,68 @@ func runC01(c *Ctx) {
 	runD5(c, "C01", c.Pick(2, 3), func(np NamedProg, txts []string) {
 		semUnit(c, "C01", np.P, txts, false, false)
 	})
+	// amount clauses on self-overlapping bodies: a match that `skip` passes over is consumed whole (the
+	// scan resumes at its end), `take`/`top`/`last` cut the same sequence
+	if c.Level("amounts:n<=2") {
+		ta := texts("ab", 5)
+		for n := 1; n <= 2; n++ {
+			for _, body := range gramD1().Seqs(n) {
+				p := &Prog{Body: body}
+				if !c.Unit(func() string { return "amounts: " + progDesc(p) }) {
+					continue
+				}
+				for _, hd := range []struct {
+					head   string
+					lo, hi int // window of the `find all` sequence; hi < 0 = to the end; lo < 0 = last -lo
+				}{{"find skip 1", 1, -1}, {"find skip 2 take 1", 2, 3}, {"find top 2", 0, 2}, {"find last 1", -1, -1}} {
+					src := p.Source(hd.head)
+					v, err, pi := compileSafe(src)
+					if err != nil || pi != nil {
+						c.Violation("COMPILE-REJECT amounts", fmt.Sprintf("%q rejected: %v %v", src, err, pi), map[string]any{"kind": "compile", "src": src, "want": "accepted"})
+						continue
+					}
+					for _, t := range ta {
+						c.Eval(1)
+						all, r := refScan(p, t, Variants{})
+						if r.blown {
+							continue
+						}
+						lo, hi := hd.lo, hd.hi
+						if lo < 0 {
+							lo = len(all) + lo
+						}
+						if lo < 0 {
+							lo = 0
+						}
+						if lo > len(all) {
+							lo = len(all)
+						}
+						if hi < 0 || hi > len(all) {
+							hi = len(all)
+						}
+						if hi < lo {
+							hi = lo
+						}
+						want := all[lo:hi]
+						if len(want) > 0 {
+							c.Nontrivial(1)
+						}
+						stepCount, stepBudget = 0, semStepBudget
+						ms, pi := runSafe(v, t)
+						stepBudget = 0
+						if pi != nil {
+							c.Violation("RUN-PANIC amounts "+pi.Site, fmt.Sprintf("%q on %q panics: %s", src, t, pi.Msg), map[string]any{"kind": "spans", "src": src, "text": t, "want": fmtSpans(want, false)})
+							continue
+						}
+						if got := spansOf(ms); !spansEqual(got, want, false) {
+							c.Violation("SPANS amounts "+strings.Fields(hd.head)[1], fmt.Sprintf("%q on %q: got %s want %s (the window of the reference sequence %s)", src, t, fmtSpans(got, false), fmtSpans(want, false), fmtSpans(all, false)),
+								map[string]any{"kind": "spans", "src": src, "text": t, "want": fmtSpans(want, false)})
+						}
+					}
+				}
+			}
+		}
+	}
 	// D4 captures and back-references (spans only here; C02 compares the bindings): a back-reference
 	// that sees a binding of an abandoned path matches where it must fail
 	runGram(c, "C01", "D4", gramD4(true), c.Pick(4, 5), texts("ab", 4), false, true, 0)
